@@ -206,80 +206,80 @@ Ltac pres_step :=
   | |- pres (let _ := _ in _) => cbv zeta
   end.
 
-Ltac unf := unfold reply_num, reply_svc, updChan, chanM, nickM, cfgM, param, prefix_name, msg_prefix,
+Ltac ri_unf := unfold reply_num, reply_svc, updChan, chanM, nickM, cfgM, param, prefix_name, msg_prefix,
               chanop_of, captcha_url_check, add_member, leave_channel, maybe_delete_channel,
               remove_nick_everywhere, rename_in_channels, change_nick.
-Ltac go := repeat (first [ pres_step | assumption | progress unf ]).
+Ltac ri_go := repeat (first [ pres_step | assumption | progress ri_unf ]).
 
 (* ---- the handlers ------------------------------------------------------------------------------------------ *)
 Lemma p_delete_session k : pres (delete_session k).
-Proof. unfold delete_session. unf. go. Qed.
+Proof. unfold delete_session. ri_unf. ri_go. Qed.
 Lemma p_verify_captcha e k c : pres (verify_captcha e k c).
-Proof. unfold verify_captcha. unf. go. Qed.
+Proof. unfold verify_captcha. ri_unf. ri_go. Qed.
 Lemma p_cmd_motd k m : pres (cmd_motd k m).
-Proof. unfold cmd_motd. unf. go. Qed.
+Proof. unfold cmd_motd. ri_unf. ri_go. Qed.
 Lemma p_cmd_oper k m : pres (cmd_oper k m).
-Proof. unfold cmd_oper. unf. go. Qed.
+Proof. unfold cmd_oper. ri_unf. ri_go. Qed.
 Lemma p_maybe_login e k m : pres (maybe_login e k m).
-Proof. unfold maybe_login. unf. go; try apply p_verify_captcha; try apply p_cmd_oper; try apply p_cmd_motd. Qed.
+Proof. unfold maybe_login. ri_unf. ri_go; try apply p_verify_captcha; try apply p_cmd_oper; try apply p_cmd_motd. Qed.
 Lemma p_cmd_nick e k m : pres (cmd_nick e k m).
-Proof. unfold cmd_nick. unf. go; try apply p_maybe_login. Qed.
+Proof. unfold cmd_nick. ri_unf. ri_go; try apply p_maybe_login. Qed.
 Lemma p_cmd_user e k m : pres (cmd_user e k m).
-Proof. unfold cmd_user. unf. go; try apply p_maybe_login. Qed.
+Proof. unfold cmd_user. ri_unf. ri_go; try apply p_maybe_login. Qed.
 Lemma p_cmd_pass e k m : pres (cmd_pass e k m).
-Proof. unfold cmd_pass. unf. go; try apply p_maybe_login. Qed.
+Proof. unfold cmd_pass. ri_unf. ri_go; try apply p_maybe_login. Qed.
 Lemma p_mode_step k lc ch op md q : pres (cmd_mode_chan_step k lc ch op md q).
-Proof. unfold cmd_mode_chan_step. unf. go. Qed.
+Proof. unfold cmd_mode_chan_step. ri_unf. ri_go. Qed.
 Lemma p_mode_loop k lc ch op mds q : pres (cmd_mode_chan_loop k lc ch op mds q).
 Proof.
   revert q. induction mds as [|md mds IH]; intros q; cbn [cmd_mode_chan_loop]; [apply pres_ret|].
   apply pres_bind; [apply p_mode_step|]. intros st. destruct (fst st); [apply pres_ret|apply IH].
 Qed.
 Lemma p_cmd_mode k m : pres (cmd_mode k m).
-Proof. unfold cmd_mode. unf. go; try apply p_mode_loop. Qed.
+Proof. unfold cmd_mode. ri_unf. ri_go; try apply p_mode_loop. Qed.
 Lemma p_cmd_topic k m : pres (cmd_topic k m).
-Proof. unfold cmd_topic. unf. go. Qed.
+Proof. unfold cmd_topic. ri_unf. ri_go. Qed.
 Lemma p_cmd_names k m : pres (cmd_names k m).
-Proof. unfold cmd_names. unf. go. Qed.
+Proof. unfold cmd_names. ri_unf. ri_go. Qed.
 Lemma p_join_one e k ch key : pres (join_one e k ch key).
-Proof. unfold join_one. unf. go; try apply p_verify_captcha; try apply p_cmd_mode; try apply p_cmd_topic; try apply p_cmd_names. Qed.
+Proof. unfold join_one. ri_unf. ri_go; try apply p_verify_captcha; try apply p_cmd_mode; try apply p_cmd_topic; try apply p_cmd_names. Qed.
 Lemma p_cmd_join e k m : pres (cmd_join e k m).
-Proof. unfold cmd_join. unf. go; try apply p_join_one. Qed.
+Proof. unfold cmd_join. ri_unf. ri_go; try apply p_join_one. Qed.
 Lemma p_cmd_part k m : pres (cmd_part k m).
-Proof. unfold cmd_part. unf. go. Qed.
+Proof. unfold cmd_part. ri_unf. ri_go. Qed.
 Lemma p_cmd_kick k m : pres (cmd_kick k m).
-Proof. unfold cmd_kick. unf. go. Qed.
+Proof. unfold cmd_kick. ri_unf. ri_go. Qed.
 Lemma p_cmd_invite k m : pres (cmd_invite k m).
-Proof. unfold cmd_invite. unf. go. Qed.
+Proof. unfold cmd_invite. ri_unf. ri_go. Qed.
 Lemma p_cmd_privmsg k m : pres (cmd_privmsg k m).
-Proof. unfold cmd_privmsg. unf. go. Qed.
+Proof. unfold cmd_privmsg. ri_unf. ri_go. Qed.
 Lemma p_cmd_service_alias k m : pres (cmd_service_alias k m).
-Proof. unfold cmd_service_alias. unf. go; try apply p_cmd_privmsg. Qed.
+Proof. unfold cmd_service_alias. ri_unf. ri_go; try apply p_cmd_privmsg. Qed.
 Lemma p_cmd_who k m : pres (cmd_who k m).
-Proof. unfold cmd_who. unf. go. Qed.
+Proof. unfold cmd_who. ri_unf. ri_go. Qed.
 Lemma p_cmd_whois k m : pres (cmd_whois k m).
-Proof. unfold cmd_whois. unf. go. Qed.
+Proof. unfold cmd_whois. ri_unf. ri_go. Qed.
 Lemma p_cmd_list k m : pres (cmd_list k m).
-Proof. unfold cmd_list. unf. go. Qed.
+Proof. unfold cmd_list. ri_unf. ri_go. Qed.
 Lemma p_cmd_away k m : pres (cmd_away k m).
-Proof. unfold cmd_away. unf. go. Qed.
+Proof. unfold cmd_away. ri_unf. ri_go. Qed.
 Lemma p_cmd_ison k m : pres (cmd_ison k m).
-Proof. unfold cmd_ison. unf. go. Qed.
+Proof. unfold cmd_ison. ri_unf. ri_go. Qed.
 Lemma p_cmd_userhost k m : pres (cmd_userhost k m).
-Proof. unfold cmd_userhost. unf. go. Qed.
+Proof. unfold cmd_userhost. ri_unf. ri_go. Qed.
 Lemma p_cmd_knock k m : pres (cmd_knock k m).
-Proof. unfold cmd_knock. unf. go. Qed.
+Proof. unfold cmd_knock. ri_unf. ri_go. Qed.
 Lemma p_cmd_ping k m : pres (cmd_ping k m).
-Proof. unfold cmd_ping. unf. go. Qed.
+Proof. unfold cmd_ping. ri_unf. ri_go. Qed.
 Lemma p_cmd_quit k m : pres (cmd_quit k m).
-Proof. unfold cmd_quit. unf. go; try apply p_delete_session. Qed.
+Proof. unfold cmd_quit. ri_unf. ri_go; try apply p_delete_session. Qed.
 Lemma p_cmd_kill k m : pres (cmd_kill k m).
-Proof. unfold cmd_kill. unf. go; try apply p_delete_session. Qed.
+Proof. unfold cmd_kill. ri_unf. ri_go; try apply p_delete_session. Qed.
 Lemma p_cmd_gline k m : pres (cmd_gline k m).
-Proof. unfold cmd_gline. unf. go; try apply p_cmd_kill. Qed.
+Proof. unfold cmd_gline. ri_unf. ri_go; try apply p_cmd_kill. Qed.
 (* services *)
 Lemma p_burst_one sv t : pres (burst_one sv t).
-Proof. unfold burst_one. unf. go. Qed.
+Proof. unfold burst_one. ri_unf. ri_go. Qed.
 
 (* SERVER: the Server flag and the list entry are written together *)
 Lemma p_become_server (k : N * N) p :
@@ -299,42 +299,42 @@ Qed.
 
 Lemma p_cmd_server (k : N * N) m : snd k = 0%N -> pres (cmd_server k m).
 Proof.
-  intros Hk0. unfold cmd_server. apply pres_bind_sessM. intros s Hs. apply pres_bind; [unf; go|]. intros g.
-  destruct (negb _); [apply pres_emit|]. apply pres_bind; [unf; go|]. intros p0.
-  apply pres_seq2; [now apply p_become_server|]. intros _. unf. go; try apply p_burst_one.
+  intros Hk0. unfold cmd_server. apply pres_bind_sessM. intros s Hs. apply pres_bind; [ri_unf; ri_go|]. intros g.
+  destruct (negb _); [apply pres_emit|]. apply pres_bind; [ri_unf; ri_go|]. intros p0.
+  apply pres_seq2; [now apply p_become_server|]. intros _. ri_unf. ri_go; try apply p_burst_one.
 Qed.
 Lemma p_cmd_server_nick k m : pres (cmd_server_nick k m).
-Proof. unfold cmd_server_nick. unf. go. Qed.
+Proof. unfold cmd_server_nick. ri_unf. ri_go. Qed.
 Lemma p_quit_pseudo tk m : pres (quit_pseudo tk m).
-Proof. unfold quit_pseudo. unf. go; try apply p_delete_session. Qed.
+Proof. unfold quit_pseudo. ri_unf. ri_go; try apply p_delete_session. Qed.
 Lemma p_cmd_server_quit k m : pres (cmd_server_quit k m).
-Proof. unfold cmd_server_quit. unf. go; try apply p_delete_session; try apply p_quit_pseudo. Qed.
+Proof. unfold cmd_server_quit. ri_unf. ri_go; try apply p_delete_session; try apply p_quit_pseudo. Qed.
 Lemma p_cmd_server_kill k m : pres (cmd_server_kill k m).
-Proof. unfold cmd_server_kill. unf. go; try apply p_delete_session. Qed.
+Proof. unfold cmd_server_kill. ri_unf. ri_go; try apply p_delete_session. Qed.
 Lemma p_cmd_server_join k m : pres (cmd_server_join k m).
-Proof. unfold cmd_server_join. unf. go. Qed.
+Proof. unfold cmd_server_join. ri_unf. ri_go. Qed.
 Lemma p_cmd_server_part k m : pres (cmd_server_part k m).
-Proof. unfold cmd_server_part. unf. go. Qed.
+Proof. unfold cmd_server_part. ri_unf. ri_go. Qed.
 Lemma p_cmd_server_kick k m : pres (cmd_server_kick k m).
-Proof. unfold cmd_server_kick. unf. go. Qed.
+Proof. unfold cmd_server_kick. ri_unf. ri_go. Qed.
 Lemma p_cmd_server_svsjoin k m : pres (cmd_server_svsjoin k m).
-Proof. unfold cmd_server_svsjoin. unf. go; try apply p_cmd_topic; try apply p_cmd_names. Qed.
+Proof. unfold cmd_server_svsjoin. ri_unf. ri_go; try apply p_cmd_topic; try apply p_cmd_names. Qed.
 Lemma p_cmd_server_svspart k m : pres (cmd_server_svspart k m).
-Proof. unfold cmd_server_svspart. unf. go. Qed.
+Proof. unfold cmd_server_svspart. ri_unf. ri_go. Qed.
 Lemma p_cmd_server_svsnick k m : pres (cmd_server_svsnick k m).
-Proof. unfold cmd_server_svsnick. unf. go. Qed.
+Proof. unfold cmd_server_svsnick. ri_unf. ri_go. Qed.
 Lemma p_cmd_server_mode k m : pres (cmd_server_mode k m).
-Proof. unfold cmd_server_mode. unf. go. Qed.
+Proof. unfold cmd_server_mode. ri_unf. ri_go. Qed.
 Lemma p_cmd_server_topic k m : pres (cmd_server_topic k m).
-Proof. unfold cmd_server_topic. unf. go. Qed.
+Proof. unfold cmd_server_topic. ri_unf. ri_go. Qed.
 Lemma p_cmd_server_invite k m : pres (cmd_server_invite k m).
-Proof. unfold cmd_server_invite. unf. go. Qed.
+Proof. unfold cmd_server_invite. ri_unf. ri_go. Qed.
 Lemma p_cmd_server_privmsg k m : pres (cmd_server_privmsg k m).
-Proof. unfold cmd_server_privmsg. unf. go. Qed.
+Proof. unfold cmd_server_privmsg. ri_unf. ri_go. Qed.
 Lemma p_cmd_server_svshold k m : pres (cmd_server_svshold k m).
-Proof. unfold cmd_server_svshold. unf. go. Qed.
+Proof. unfold cmd_server_svshold. ri_unf. ri_go. Qed.
 Lemma p_cmd_server_svsmode k m : pres (cmd_server_svsmode k m).
-Proof. unfold cmd_server_svsmode. unf. go. Qed.
+Proof. unfold cmd_server_svsmode. ri_unf. ri_go. Qed.
 
 Lemma p_dispatch name minp (f : handler) e (k : N * N) m :
   In (name, (minp, f)) commands -> snd k = 0%N -> pres (f e k m).
@@ -355,15 +355,15 @@ Qed.
 Lemma p_process_message e (k : N * N) ra ircmsg : snd k = 0%N -> pres (process_message e k ra ircmsg).
 Proof.
   intros Hk0. unfold process_message. apply pres_bind_sessM. intros s Hs.
-  destruct ircmsg as [m|]; [|unf; go]. cbv zeta.
+  destruct ircmsg as [m|]; [|ri_unf; ri_go]. cbv zeta.
   apply pres_bind.
-  { destruct (_ && _); [|apply pres_ret]. unf. go; apply p_delete_session. }
+  { destruct (_ && _); [|apply pres_ret]. ri_unf. ri_go; apply p_delete_session. }
   intros banned. destruct banned; [apply pres_ret|].
   apply pres_bind_sessM. intros s1 Hs1.
   destruct (_ && _ && _).
-  { unf. go; apply p_delete_session. }
-  destruct (assoc_str _ commands) as [[minp f]|] eqn:Hc; [|unf; go].
-  destruct (Nat.ltb _ _); [unf; go|].
+  { ri_unf. ri_go; apply p_delete_session. }
+  destruct (assoc_str _ commands) as [[minp f]|] eqn:Hc; [|ri_unf; ri_go].
+  destruct (Nat.ltb _ _); [ri_unf; ri_go|].
   eapply p_dispatch; [eapply assoc_str_In; exact Hc|exact Hk0].
 Qed.
 
